@@ -40,7 +40,7 @@ def strip_comments(src):
     return re.sub(r"//[^\n]*", "", src)
 
 
-TOK = re.compile(r"\s*(::|->|==|!=|<=|>=|&&|\|\||\+=|-=|\+\+|--|[A-Za-z_]\w*|\d+|[{}()\[\];,<>=+\-*/!?:&.~|^%])")
+TOK = re.compile(r"\s*(::|->|>>|<<|==|!=|<=|>=|&&|\|\||\+=|-=|\+\+|--|[A-Za-z_]\w*|\d+|[{}()\[\];,<>=+\-*/!?:&.~|^%])")
 
 
 def tokenize(text):
@@ -233,11 +233,21 @@ class P:
             a = (t if op == "==" else f"(bnot {t})", "bool")
         return a
 
-    def e_rel(self):
+    def e_shift(self):
         a = self.e_add()
-        while self.peek() in ("<", "<=", ">", ">="):
+        while self.peek() in (">>", "<<"):
             op = self.eat()
             b = self.e_add()
+            if (a[1], b[1]) != ("nat", "nat"):
+                self.refuse("shift of a non-integer")
+            a = (f"({'nshr' if op == '>>' else 'nshl'} {a[0]} {b[0]})", "nat")
+        return a
+
+    def e_rel(self):
+        a = self.e_shift()
+        while self.peek() in ("<", "<=", ">", ">="):
+            op = self.eat()
+            b = self.e_shift()
             a, b = self.unify(a, b)
             if a[1] not in ("ptr", "nat"):
                 self.refuse("comparison of this type")
@@ -245,11 +255,21 @@ class P:
             a = (f"({'p' if a[1] == 'ptr' else 'n'}{f} {a[0]} {b[0]})", "bool")
         return a
 
-    def e_add(self):
+    def e_mul(self):
         a = self.e_unary()
-        while self.peek() in ("+", "-"):
+        while self.peek() in ("*", "/"):
             op = self.eat()
             b = self.e_unary()
+            if (a[1], b[1]) != ("nat", "nat"):
+                self.refuse("multiplication / division of a non-integer")
+            a = (f"({'nmul' if op == '*' else 'ndiv'} {a[0]} {b[0]})", "nat")
+        return a
+
+    def e_add(self):
+        a = self.e_mul()
+        while self.peek() in ("+", "-"):
+            op = self.eat()
+            b = self.e_mul()
             if op == "+" and a[1] == "ptr" and b[1] == "nat":
                 a = (f"(padd {a[0]} {b[0]})", "ptr")
             elif op == "+" and a[1] == "nat" and b[1] == "nat":
@@ -382,16 +402,25 @@ class P:
             if ty != "ptr" or z != "0":
                 self.refuse("store through a pointer other than `*p = 0`")
             return [f"store0 (some {nm})"]
-        # resize(e);
-        if tok == "resize" and self.peek(1) == "(":
+        # a call of another member function on this object: `resize(e);` `reserve(e);` `helper(e, ...);`
+        if tok is not None and self.peek(1) == "(" and tok in CALLABLE:
             self.eat(); self.eat("(")
-            a = self.expr()
+            args = []
+            while self.peek() != ")":
+                a = self.expr()
+                if a[1] != "nat":
+                    self.refuse(f"argument of {tok}")
+                args.append(a[0])
+                if self.peek() == ",":
+                    self.eat(",")
             self.eat(")"); self.eat(";")
-            if a[1] != "nat":
-                self.refuse("argument of resize")
-            return [f"let a_ ← val {a[0]}", f"let o_ ← resize self {self.selfobj()} a_",
-                    "let buffer := o_.buffer", "let bufferStart := o_.bufferStart", "let bufferEnd := o_.bufferEnd",
-                    "let cap := o_.capacity"]
+            lean, nparams = CALLABLE[tok]()
+            if nparams != len(args):
+                self.refuse(f"number of arguments of {tok}")
+            lines = [f"let a{i}_ ← val {a}" for i, a in enumerate(args)]
+            return lines + [f"let o_ ← {lean} self {self.selfobj()} " + " ".join(f"a{i}_" for i in range(len(args))),
+                            "let buffer := o_.buffer", "let bufferStart := o_.bufferStart", "let bufferEnd := o_.bufferEnd",
+                            "let cap := o_.capacity"]
         # declaration
         if tok in ("usize", "bool", "byte", "const"):
             if tok == "const":
@@ -625,17 +654,45 @@ def translate(name, kind, params_text, init_text, body_text):
     lines = p.stmt_list(ret)
     if p.peek() is not None:
         raise Refuse(f"{name}: unexpected {p.peek()!r}")
-    out = [f"def {name} {' '.join(largs)} : CM {rty} := do"]
+    out = [f"@[tr_gen] def {name} {' '.join(largs)} : CM {rty} := do"]
     out += ["  " + l for l in pre + init_lines + lines]
     return "\n".join(out)
 
 
+CALLABLE = {}     # C++ name of a member function that may be called as a statement -> thunk returning (Lean name, number of parameters)
+
+
 def generate(repo):
     src = strip_comments((Path(repo) / "include/nstd/Buffer.hpp").read_text())
-    defs = []
-    for name, rx, kind in METHODS:
+    defs, done, busy = [], {}, set()
+    known = {n: (rx, kind) for n, rx, kind in METHODS}
+
+    def emit(name, rx, kind):
+        if name in done:
+            return done[name]
+        if name in busy:
+            raise Refuse(f"{name}: recursive call")
+        busy.add(name)
         params, init, body = extract(src, name, rx)
-        defs.append(translate(name, kind, params, init, body))
+        text = translate(name, kind, params, init, body)
+        nparams = len(parse_params(name, params))
+        defs.append(text)
+        busy.discard(name)
+        done[name] = (name, nparams)
+        return done[name]
+
+    CALLABLE.clear()
+    for cpp in ("resize", "reserve", "removeFront", "removeBack", "clear", "free"):
+        CALLABLE[cpp] = (lambda c=cpp: emit(c, *known[c]))
+    # private helpers: every other `void name(usize ...)` member that takes integers only
+    for m in re.finditer(r"void\s+(\w+)\s*\(\s*((?:usize\s+\w+\s*,?\s*)*)\)\s*\{", src):
+        cpp = m.group(1)
+        if cpp in CALLABLE or cpp in ("attach", "assign", "prepend", "append", "swap"):
+            continue
+        rx = r"void\s+" + cpp + r"\s*\(\s*(?:usize\s+\w+\s*,?\s*)*\)"
+        CALLABLE[cpp] = (lambda c=cpp, r=rx: emit("helper_" + c, r, "void"))
+    for name, rx, kind in METHODS:
+        emit(name, rx, kind)
     hdr = ("/- GENERATED by tools/gen_buffer.py from include/nstd/Buffer.hpp – do not edit.  The method bodies of Buffer.hpp, statement by\n"
            "   statement, over the checked-memory machine of Nstd/Buffer/CMem.lean. -/\n"
            "import Nstd.Buffer.CMem\nnamespace Nstd.Buffer.Gen\nopen Nstd.Buffer Nstd.Buffer.C\n\n")
